@@ -148,9 +148,11 @@ class Interp:
         if isinstance(n, ast.ListComp):
             e2 = dict(env)
             for g in n.generators:
+                itv = self.ev(g.iter, e2, cx)
                 for t in ast.walk(g.target):
                     if isinstance(t, ast.Name):
-                        e2[t.id] = NUM
+                        # iterating directly over an array of numbers binds the target to one of its elements
+                        e2[t.id] = V("N", itv.sys, itv.dim, num=itv.num) if (itv.kind == "N" and isinstance(g.target, ast.Name)) else NUM
             el = self.ev(n.elt, e2, cx)
             if el.kind == "N":
                 return V("N", el.sys, el.dim, extra="array", num=el.num)
